@@ -39,6 +39,18 @@ CHECKS = {
              'partial: gap-creating writes are excluded from the theorem (known finding ctrio.write-past-eof-gap).',
         technique='Lean 4 refinement proof + model/implementation correspondence',
         design='§4 C12'),
+    'C08': dict(
+        text='Theorems: Python rol on unbounded ints = 128-bit rotation; keygen_manual / keygen_twl_manual equal the '
+             'BitVec-128 hardware scramblers for ALL X, Y; the ghost-state coherence invariant (formula / direct / '
+             'free per slot) is preserved by every key operation and so holds after any sequence; factories use the '
+             'normal key or raise; heap-level clone independence.  Tied to CryptoEngine by differential execution of '
+             'op sequences on real engines (incl. clones, ticket loads, key-area construction) with an independent '
+             'scrambler+ghost monitor.',
+        note=COMMON_NOTE + 'Python dicts are modelled as total functions; constants and the key-area reading plan are '
+             'transcribed and validated by correspondence only; AES for ticket loading is a parameter; the boot9 hash '
+             'pin is out of scope (key area is an input).',
+        technique='Lean 4 proof (bit-vector identities + invariant induction) + model/implementation correspondence',
+        design='§4 C08'),
     'C09': dict(
         text='Refinement theorems (IsFile): BytesIO model, SubsectionIO over any file-like inner object, stacking, '
              'lifted to every operation history, plus frame (no byte outside the window changes) — proved in Lean for '
